@@ -120,140 +120,14 @@ func runC05(c *core.Ctx) {
 	c.Rule("R05.4", "aggregation loses no wound")
 	c.Rule("R05.5", "classification table: each enumerated deviation test controls a wound emission")
 	c.Rule("R05.6", "no file is passed unseen")
+	ruleWoundsAreOwnedByTheMessage(c, "R05.7")
 	kinds := woundKinds(c.P)
 	if len(kinds) < 4 {
 		c.Missing("R05", "pwr.WoundKind_*", "wound kind constants not found")
 		return
 	}
 
-	// ---- R05.1
-	for _, name := range []string{"blockValidator.ValidateAsWound", "blockValidator.ValidateAsError"} {
-		fn := c.P.Fn("pwr", name)
-		if fn == nil {
-			c.Missing("R05.1", "pwr."+name, "not found")
-			continue
-		}
-		// a healthy verdict: a program point with the branch outcomes that hold there
-		type verdict struct {
-			at     ssa.Instruction
-			guards []core.Guard
-		}
-		var healthy []verdict
-		if strings.HasSuffix(name, "AsError") {
-			for _, rs := range successReturns(fn) {
-				healthy = append(healthy, verdict{rs.Ret, core.Guards(rs.Ret)})
-			}
-		} else {
-			for _, rs := range core.Returns(fn, 0) {
-				for _, o := range core.Origins(rs.Val) {
-					if ld, ok := o.(*ssa.UnOp); ok && ld.Op == token.MUL {
-						o = ld.X
-					}
-					if a, ok := o.(*ssa.Alloc); ok {
-						if v, ok := litField(a, "Kind"); ok {
-							// the kind is a constant, or chosen among constants on the way here
-							for _, cs := range constCases(v, rs.Ret) {
-								if cs.k == kinds["CLOSED_FILE"] {
-									healthy = append(healthy, verdict{rs.Ret, cs.guards})
-								}
-							}
-						}
-					}
-				}
-			}
-		}
-		if len(healthy) == 0 {
-			c.Bad("R05.1", core.FnName(fn), "healthy verdict", fn.Pos(), "no healthy return found (anchor changed shape)")
-			continue
-		}
-		dataParam := fn.Params[len(fn.Params)-1]
-		for _, vd := range healthy {
-			ret := vd.at
-			hasGuard := func(_ ssa.Instruction, pred func(core.Guard) bool) bool {
-				for _, g := range vd.guards {
-					if pred(g) {
-						return true
-					}
-				}
-				return false
-			}
-			strong := hasGuard(ret, func(g core.Guard) bool {
-				cl, ok := g.Cond.(*ssa.Call)
-				if !ok || !g.Val || core.CalleeName(cl) != "bytes.Equal" {
-					return false
-				}
-				var signed, computed bool
-				for _, a := range cl.Call.Args {
-					if _, n, ok := core.FieldOf(a); ok && n == "StrongHash" {
-						signed = true
-					}
-					for _, o := range core.Origins(a) {
-						if ex, ok := o.(*ssa.Extract); ok {
-							if hc, ok := ex.Tuple.(*ssa.Call); ok && strings.HasSuffix(core.CalleeName(hc), ".HashBlock") {
-								if len(hc.Call.Args) > 0 && hc.Call.Args[len(hc.Call.Args)-1] == ssa.Value(dataParam) {
-									computed = true
-								}
-							}
-						}
-					}
-				}
-				return signed && computed
-			})
-			inRange := hasGuard(ret, func(g core.Guard) bool {
-				bo, ok := g.Cond.(*ssa.BinOp)
-				if !ok {
-					return false
-				}
-				isLen := func(v ssa.Value) bool {
-					cl, ok := core.StripConv(v).(*ssa.Call)
-					if !ok {
-						return false
-					}
-					b, ok := cl.Call.Value.(*ssa.Builtin)
-					return ok && b.Name() == "len"
-				}
-				isIdx := func(v ssa.Value) bool { return core.StripConv(v) == ssa.Value(fn.Params[2]) }
-				switch {
-				case bo.Op == token.GEQ && isIdx(bo.X) && isLen(bo.Y):
-					return !g.Val
-				case bo.Op == token.LSS && isIdx(bo.X) && isLen(bo.Y):
-					return g.Val
-				case bo.Op == token.LEQ && isLen(bo.X) && isIdx(bo.Y):
-					return !g.Val
-				case bo.Op == token.GTR && isLen(bo.X) && isIdx(bo.Y):
-					return g.Val
-				}
-				return false
-			})
-			// an EMPTY block beyond the signed count carries no data that could differ (a read at EOF of a file whose
-			// size is a block multiple): declaring it healthy is not a violation
-			emptyData := hasGuard(ret, func(g core.Guard) bool {
-				bo, ok := g.Cond.(*ssa.BinOp)
-				if !ok {
-					return false
-				}
-				cl, ok := bo.X.(*ssa.Call)
-				if !ok {
-					return false
-				}
-				b, ok := cl.Call.Value.(*ssa.Builtin)
-				z, isC := core.ConstInt(bo.Y)
-				if !ok || b.Name() != "len" || cl.Call.Args[0] != ssa.Value(dataParam) || !isC || z != 0 {
-					return false
-				}
-				return (bo.Op == token.EQL && g.Val) || (bo.Op == token.NEQ && !g.Val) || (bo.Op == token.GTR && !g.Val)
-			})
-			if emptyData {
-				inRange, strong = true, true
-			}
-			c.Check(inRange, "R05.1", core.FnName(fn), "healthy verdict requires blockIndex < len(hashGroup)", core.InstrPos(ret),
-				"return is control-dependent on the block index being inside the signed hash group",
-				"a block beyond the signed block count can be declared healthy")
-			c.Check(strong, "R05.1", core.FnName(fn), "healthy verdict requires strong-hash equality", core.InstrPos(ret),
-				"return is control-dependent on bytes.Equal(signed StrongHash, HashBlock(data)) being true",
-				"a block can be declared healthy without its strong hash having been compared with the signed one")
-		}
-	}
+	ruleHealthyVerdict(c, kinds)
 
 	// ---- R05.2
 	nLits := 0
@@ -857,4 +731,188 @@ func guardTokens(g core.Guard) []string {
 		}
 	}
 	return out
+}
+
+// ruleWoundsAreOwnedByTheMessage (R05.7, shared with C06): a *Wound sent on a channel is read later, by
+// another goroutine (the aggregator keeps the pointer until the next wound arrives). The object must
+// therefore be the message's own: allocated in the sending function and allocated anew before the send can
+// happen again - not a variable that outlives the call (captured from an enclosing function) or is reused
+// across iterations, which the sender overwrites while the receiver still holds it.
+func ruleWoundsAreOwnedByTheMessage(c *core.Ctx, rule string) {
+	c.Rule(rule, "a wound that is sent is not a variable the sender overwrites later")
+	n := 0
+	for _, fn := range c.P.SrcFuncs() {
+		if !strings.HasSuffix(core.PkgPathOf(fn), "/pwr") {
+			continue
+		}
+		core.Instrs(fn, func(in ssa.Instruction) {
+			var sent []ssa.Value
+			switch x := in.(type) {
+			case *ssa.Send:
+				sent = append(sent, x.X)
+			case *ssa.Select:
+				for _, st := range x.States {
+					if st.Send != nil {
+						sent = append(sent, st.Send)
+					}
+				}
+			}
+			for _, v := range sent {
+				if core.TypeName(v.Type()) != "pwr.Wound" {
+					continue
+				}
+				if _, isPtr := v.Type().Underlying().(*types.Pointer); !isPtr {
+					continue
+				}
+				for _, o := range core.Origins(v) {
+					switch a := o.(type) {
+					case *ssa.Alloc:
+						n++
+						own := a.Parent() == fn
+						fresh := own && core.FindPath(fn, in, isInstr(in), isInstr(a)) == nil
+						c.Check(own && fresh, rule, core.FnName(fn), "sent wound is a fresh object: "+core.Describe(v), core.InstrPos(in),
+							"allocated in the sending function, anew before every send", "the wound that is sent is a variable that the sender can overwrite while the receiver still holds the pointer (it outlives the call, or is reused across iterations): the aggregator forwards whatever the variable holds by then")
+					case *ssa.FreeVar:
+						n++
+						c.Bad(rule, core.FnName(fn), "sent wound is a fresh object: "+core.Describe(v), core.InstrPos(in),
+							"the address of a variable captured from an enclosing function is sent: the next call overwrites it while the receiver still holds the pointer")
+					}
+				}
+			}
+		})
+	}
+	c.Floor(rule, "sends of the address of a local wound", n, 1)
+}
+
+// ruleHealthyVerdict is R05.1 (shared with C18: what the validating pool reports rests on these verdicts).
+func ruleHealthyVerdict(c *core.Ctx, kinds map[string]int64) {
+	// ---- R05.1
+	for _, name := range []string{"blockValidator.ValidateAsWound", "blockValidator.ValidateAsError"} {
+		fn := c.P.Fn("pwr", name)
+		if fn == nil {
+			c.Missing("R05.1", "pwr."+name, "not found")
+			continue
+		}
+		// a healthy verdict: a program point with the branch outcomes that hold there
+		type verdict struct {
+			at     ssa.Instruction
+			guards []core.Guard
+		}
+		var healthy []verdict
+		if strings.HasSuffix(name, "AsError") {
+			for _, rs := range successReturns(fn) {
+				healthy = append(healthy, verdict{rs.Ret, core.Guards(rs.Ret)})
+			}
+		} else {
+			for _, rs := range core.Returns(fn, 0) {
+				for _, o := range core.Origins(rs.Val) {
+					if ld, ok := o.(*ssa.UnOp); ok && ld.Op == token.MUL {
+						o = ld.X
+					}
+					if a, ok := o.(*ssa.Alloc); ok {
+						if v, ok := litField(a, "Kind"); ok {
+							// the kind is a constant, or chosen among constants on the way here
+							for _, cs := range constCases(v, rs.Ret) {
+								if cs.k == kinds["CLOSED_FILE"] {
+									healthy = append(healthy, verdict{rs.Ret, cs.guards})
+								}
+							}
+						}
+					}
+				}
+			}
+		}
+		if len(healthy) == 0 {
+			c.Bad("R05.1", core.FnName(fn), "healthy verdict", fn.Pos(), "no healthy return found (anchor changed shape)")
+			continue
+		}
+		dataParam := fn.Params[len(fn.Params)-1]
+		for _, vd := range healthy {
+			ret := vd.at
+			hasGuard := func(_ ssa.Instruction, pred func(core.Guard) bool) bool {
+				for _, g := range vd.guards {
+					if pred(g) {
+						return true
+					}
+				}
+				return false
+			}
+			strong := hasGuard(ret, func(g core.Guard) bool {
+				cl, ok := g.Cond.(*ssa.Call)
+				if !ok || !g.Val || core.CalleeName(cl) != "bytes.Equal" {
+					return false
+				}
+				var signed, computed bool
+				for _, a := range cl.Call.Args {
+					if _, n, ok := core.FieldOf(a); ok && n == "StrongHash" {
+						signed = true
+					}
+					for _, o := range core.Origins(a) {
+						if ex, ok := o.(*ssa.Extract); ok {
+							if hc, ok := ex.Tuple.(*ssa.Call); ok && strings.HasSuffix(core.CalleeName(hc), ".HashBlock") {
+								if len(hc.Call.Args) > 0 && hc.Call.Args[len(hc.Call.Args)-1] == ssa.Value(dataParam) {
+									computed = true
+								}
+							}
+						}
+					}
+				}
+				return signed && computed
+			})
+			inRange := hasGuard(ret, func(g core.Guard) bool {
+				bo, ok := g.Cond.(*ssa.BinOp)
+				if !ok {
+					return false
+				}
+				isLen := func(v ssa.Value) bool {
+					cl, ok := core.StripConv(v).(*ssa.Call)
+					if !ok {
+						return false
+					}
+					b, ok := cl.Call.Value.(*ssa.Builtin)
+					return ok && b.Name() == "len"
+				}
+				isIdx := func(v ssa.Value) bool { return core.StripConv(v) == ssa.Value(fn.Params[2]) }
+				switch {
+				case bo.Op == token.GEQ && isIdx(bo.X) && isLen(bo.Y):
+					return !g.Val
+				case bo.Op == token.LSS && isIdx(bo.X) && isLen(bo.Y):
+					return g.Val
+				case bo.Op == token.LEQ && isLen(bo.X) && isIdx(bo.Y):
+					return !g.Val
+				case bo.Op == token.GTR && isLen(bo.X) && isIdx(bo.Y):
+					return g.Val
+				}
+				return false
+			})
+			// an EMPTY block beyond the signed count carries no data that could differ (a read at EOF of a file whose
+			// size is a block multiple): declaring it healthy is not a violation
+			emptyData := hasGuard(ret, func(g core.Guard) bool {
+				bo, ok := g.Cond.(*ssa.BinOp)
+				if !ok {
+					return false
+				}
+				cl, ok := bo.X.(*ssa.Call)
+				if !ok {
+					return false
+				}
+				b, ok := cl.Call.Value.(*ssa.Builtin)
+				z, isC := core.ConstInt(bo.Y)
+				if !ok || b.Name() != "len" || cl.Call.Args[0] != ssa.Value(dataParam) || !isC || z != 0 {
+					return false
+				}
+				return (bo.Op == token.EQL && g.Val) || (bo.Op == token.NEQ && !g.Val) || (bo.Op == token.GTR && !g.Val)
+			})
+			if emptyData {
+				inRange, strong = true, true
+			}
+			c.Check(inRange, "R05.1", core.FnName(fn), "healthy verdict requires blockIndex < len(hashGroup)", core.InstrPos(ret),
+				"return is control-dependent on the block index being inside the signed hash group",
+				"a block beyond the signed block count can be declared healthy")
+			c.Check(strong, "R05.1", core.FnName(fn), "healthy verdict requires strong-hash equality", core.InstrPos(ret),
+				"return is control-dependent on bytes.Equal(signed StrongHash, HashBlock(data)) being true",
+				"a block can be declared healthy without its strong hash having been compared with the signed one")
+		}
+	}
+
 }
